@@ -31,9 +31,23 @@ def main(repo, outdir):
                 with open(cl_path, "w") as fd:
                     fd.write("#pragma OPENCL EXTENSION cl_khr_fp64: enable\n")
                     fd.write(generate.convert_type(sources["opencl"], generate.F64))
+            # precision conversions of the dll source (text only; decided by the token rule of C15)
+            conv = {}
+            for tag, dt in (("f32", generate.F32), ("f64", generate.F64), ("f128", generate.F128)):
+                if dt is None:
+                    continue
+                cpath = os.path.join(outdir, "%s.%s.txt" % (name, tag))
+                with open(cpath, "w") as fd:
+                    fd.write(generate.convert_type(src, dt))
+                conv[tag] = cpath
+            f32_cl = None
+            if sources.get("opencl"):
+                f32_cl = os.path.join(outdir, name + ".f32.cl")
+                with open(f32_cl, "w") as fd:
+                    fd.write(generate.convert_type(sources["opencl"], generate.F32))
             pt = info.parameters
             index["models"][name] = {
-                "kind": "c", "unit": path, "cl_unit": cl_path,
+                "kind": "c", "unit": path, "cl_unit": cl_path, "conv": conv, "f32_cl_unit": f32_cl,
                 "max_pd": pt.max_pd, "npars": pt.npars, "nvalues": pt.nvalues,
                 "nmagnetic": pt.nmagnetic,
                 "have_Fq": bool(info.have_Fq),
